@@ -60,7 +60,10 @@ Record dispatch_shape := {
   d_get_current_is_entered_current : bool; (* get_current = `state.enter()?` then `f(&entered.current())` *)
   d_slow_guard : reentry_guard;            (* get_default_slow: `if can_enter.replace(false) { <guard>; f(default) } else { f(&none) }` *)
   d_current_guard : reentry_guard;         (* State::enter: `if can_enter.replace(false) { Some(Entered(self)) } else { None }` + Drop for Entered *)
-  d_set_default_enters : bool              (* State::set_default does `can_enter.set(true)` *)
+  d_set_default_enters : bool;             (* State::set_default does `can_enter.set(true)` *)
+  d_open_counts_when_dead : bool;          (* State::set_default increments SCOPED_COUNT OUTSIDE `CURRENT_STATE.try_with`, i.e. also when
+                                              the thread-local is already destroyed (a call from another thread-local's destructor) *)
+  d_close_counts_when_dead : bool          (* Drop for DefaultGuard decrements it outside `try_with` as well *)
 }.
 
 (** The model's variant switch, read off the four sites; [None] = a mixture the model has no variant for. *)
@@ -92,7 +95,11 @@ Definition dispatch_shape_ok (d : dispatch_shape) : bool :=
   d_with_default_is_guard d && d_get_current_is_entered_current d &&
   match d_slow_guard d with GuardRaiiDrop => true | _ => false end &&
   match d_current_guard d with GuardRaiiDrop => true | _ => false end &&
-  d_set_default_enters d.
+  d_set_default_enters d &&
+  d_open_counts_when_dead d && d_close_counts_when_dead d.
+
+(** The teardown model's switch (Dispatch/Reentry.v, [XDeadScope]): is a scope opened while the thread-local is destroyed counted? *)
+Definition dead_counts_of_shape (d : dispatch_shape) : bool := d_open_counts_when_dead d.
 
 (** The re-entrancy model's switch (Dispatch/Reentry.v): does unwinding out of a collector callback restore `can_enter`?
     Read off get_default_slow; anything but the RAII guard counts as "no" (for which C02_panic_in_callback_restores is false). *)
